@@ -17,7 +17,7 @@ completion it is fully exited and the suspended frames recur in the same tick
 without enter actions; exited with its main frame.
 """
 from engine import Ob
-from engine import flostep, floref
+from engine import flostep, floref, flogen
 from engine.flostep import START, RUN, STOP, ABORT
 
 PROPERTY = "C10"
@@ -45,7 +45,24 @@ def h(sym, n, symticks, parent, aux_frames, end, running=False):
             pre["y_" + name] = 0
         plan.append(pre)
     controls += [RUN] * symticks + ([end] if end is not None else [])
-    text, out = flostep.run(sym, prog, controls, plan=plan)
+    auxname = "a0"
+    mainidx = None
+
+    def on_assumed(k, control, rlog, robs, fobs):
+        # the reference does not decide a transition INTO a frame suspended below the main frame; the statement
+        # still says those frames stay suspended while the auxiliary runs: if the auxiliary is still running after
+        # this tick, no frame below its main frame may have recurred or evaluated transitions in it
+        host = "f%d" % info["aux"][0][2]
+        if robs[auxname]["actives"] and robs["m"]["active"] is not None:
+            full = ["f%d" % i for i in flostep.chain(info["parent"], int(robs["m"]["active"][1:]))]
+            if host in full:
+                below = full[full.index(host) + 1:]
+                for e in rlog:
+                    sym.check(not (e[0] == "m" and e[1] in below and e[2] in ("recur", "precur")),
+                              "C10/frame-below-main-ran-while-auxiliary-active", lambda: "tick %d %s\n%s" % (k, rlog, text_holder[0]))
+    text_holder = [""]
+    text_holder[0] = flogen.emit(prog)
+    text, out = flostep.run(sym, prog, controls, plan=plan, on_assumed=on_assumed)
     prev = None
     for k, (control, rlog, flog, robs, fobs, env) in enumerate(out):
         susp = []
